@@ -1,7 +1,6 @@
 package main
 
 import (
-
 	. "verifharness/hlib"
 	ml "verifharness/medialib"
 )
@@ -49,4 +48,8 @@ func run(c *Ctx) {
 	ml.RecordOutcome(c, ml.ScWorkerLostWakeup("tsmuxer.beforePop", "mpegts.(*Muxer).process"), "c03")
 	ml.FlvWireRuns(c)
 	ml.StressRuns(c, "c03", c.Budget(6, 60))
+	for _, hevc := range []bool{false, true} {
+		ml.RecordOutcome(c, ml.ScStalledAtStreamEnd(false, hevc), "c03")
+		ml.RecordOutcome(c, ml.ScStalledAtStreamEnd(true, hevc), "c03")
+	}
 }
